@@ -123,6 +123,36 @@ def run(ctx):
         lists.append(list(p))
     fails += ctx.prop('prop:sorted', lists, p_sorted)
 
+    # versions hashed here, pickled, and loaded by an interpreter with another hash seed: equal to and hashing like
+    # the versions parsed there, found in its sets and dictionaries
+    import os
+    import pickle
+    import subprocess
+    import sys
+    sample = pool[:ctx.n(400, 4000)]
+    objs = [Version.from_string(x) for x in sample]
+    _ = [hash(o) for o in objs], {o: 1 for o in objs}, sorted(objs)
+    pk = os.path.join(ctx.scratch, 'versions.pickle')
+    with open(pk, 'wb') as f:
+        pickle.dump((sample, objs), f)
+    code = ('import pickle,sys\nfrom debian_inspector.version import Version\nsample, objs = pickle.load(open(sys.argv[1], "rb"))\n'
+            'for s, o in zip(sample, objs):\n    v = Version.from_string(s)\n'
+            '    ok = (o == v) and hash(o) == hash(v) and o in {v} and v in {o} and {o: 1}.get(v) == 1 and o.compare(v) == 0 and str(o) == str(v)\n'
+            '    if not ok:\n        print(s)\n        break\n')
+    env = dict(os.environ)
+    env['PYTHONHASHSEED'] = '99'
+    from harness import common as _c
+    env['PYTHONPATH'] = os.path.join(_c.REPO, 'src')
+    r = subprocess.run([sys.executable, '-c', code, pk], env=env, stdout=subprocess.PIPE, stderr=subprocess.PIPE, text=True, timeout=600)
+    st = ctx.stream('prop:pickled-to-another-process')
+    st['cases'] = len(sample)
+    os.unlink(pk)
+    if r.returncode != 0:
+        fails.append((sample[:3], 'loading pickled versions in another interpreter raises: ' + r.stderr.strip()[-300:]))
+    elif r.stdout.strip():
+        st['prop_failures'] = 1
+        fails.append((r.stdout.strip(), 'a version hashed, pickled and loaded by an interpreter with another hash seed is not equal to, or does not hash like, the same version parsed there'))
+
     fails.sort(key=lambda f: len(repr(f[0])))
     for x, why in fails[:10]:
         ctx.violation('property', 'C02 fails on the implementation: ' + why, x)
